@@ -24,7 +24,7 @@ FULL = [('pyfull', yaml.FullLoader), ('cfull', yaml.CFullLoader)]
 M1 = ['{a: 1, b: 2}', '{}', '{c: 3, a: 1}', '{a: 1, [x]: 2}']
 M2 = ['{b: 3}', '{<<: *m1, b: 3}', '{<<: *m1}', '{<<: [*m1], c: 4, a: 5}', '{a: 6, <<: *m1, b: 7}']
 M3 = [None, '{<<: *m2, c: 8}', '{<<: [*m2, *m1], d: 9}']
-OWN = ['a: 10', 'b: 20', 'c: 30', 'a: 11', '1: x', '1.0: y', 'true: z', "'<<': 5", '!!str <<: 6', '[k]: 7', '{k: v}: 8', 'e: *m1', '"<<": *m1']
+OWN = ['!!seq x: 1', '!!map y: 2', '!!set z: 3', 'a: 10', 'b: 20', 'c: 30', 'a: 11', '1: x', '1.0: y', 'true: z', "'<<': 5", '!!str <<: 6', '[k]: 7', '{k: v}: 8', 'e: *m1', '"<<": *m1']
 MERGES = ['<<: *m1', '<<: *m2', '<<: [*m1, *m2]', '<<: [*m2, *m1]', '<<: {a: 90, z: 91}', '<<: [{a: 92}, *m1]', '<<: x', '<<: ~', '<<: [x]',
           '<<: [[*m1]]', '<<: []', '<<: [*m1, *m1]', '<<: {<<: *m2, q: 1}', '<<: *m3']
 
